@@ -1,4 +1,5 @@
 import ActixNet.Lemmas.SrvLog
+import ActixNet.Lemmas.SrvCons
 /-!
 # C01 — each accepted connection reaches exactly one worker, with its listener's token
 
@@ -60,6 +61,67 @@ theorem finish_moves_one (cfg : Cfg) (s : St) (w : Nat) (cid : Option Nat) (c : 
   simp only [envStep, hw, ↓reduceIte, hc]
   split <;> simp [pushWq]
 
+/-! ### The global statements: every history, every schedule, every configuration -/
+
+/-- all the places a connection can be once a client has connected -/
+def occurrences (s : St) (i : Nat) : Nat :=
+  sumTo s.nLst (fun l => ids (s.lst l).backlog i) +                                   -- waiting on a listener
+  sumTo s.nWk (fun w => ids (s.wk w).queue i + ids (s.wk w).inflight i) +             -- in a worker's channel / being served
+  ids s.finished i + ids s.dropped i                                                  -- served; lost with a dead worker or for want of any worker
+
+/-- **Conservation.**  After *any* history `ops` (client connects, accept-loop iterations with any
+event order and any schedule of other threads' actions at every yield point — worker pick-ups,
+completions, deaths, replacements, pause / resume / stop, clock, injected accept errors), from the
+initial state of *any* configuration (any number of workers ≤ 512, any limit ≥ 1, any listeners):
+unless the accept thread has failed (C08), every connection created so far is in **exactly one**
+place — never duplicated, never lost — and no connection that was never created is anywhere. -/
+theorem conservation (cfg : Cfg) (ok : CfgOk cfg) (kinds : List Kind) (ops : List Op)
+    (hnf : (run cfg (init cfg kinds) ops).fault = none) (i : Nat) :
+    occurrences (run cfg (init cfg kinds) ops) i = if i < (run cfg (init cfg kinds) ops).nextConn then 1 else 0 := by
+  rcases (run_cinv ok ops _ (init_cinv cfg kinds)).2 with h | h
+  · rw [hnf] at h; cases h
+  · have := h.one i
+    simp only [occurrences, Places.B, Places.W, places, ids_nil] at this ⊢
+    grind
+
+/-- **Never twice.**  In the log of successful `send`s of any history, no connection occurs twice. -/
+theorem never_dispatched_twice (cfg : Cfg) (ok : CfgOk cfg) (kinds : List Kind) (ops : List Op)
+    (hnf : (run cfg (init cfg kinds) ops).fault = none) (i : Nat) :
+    ids ((run cfg (init cfg kinds) ops).dispatched.map (·.1)) i ≤ 1 := by
+  rcases (run_cinv ok ops _ (init_cinv cfg kinds)).2 with h | h
+  · rw [hnf] at h; cases h
+  · have h1 := h.one i
+    have h2 := h.disp i
+    simp only [Places.B, Places.W, places, ids_nil] at h1 h2 ⊢
+    grind
+
+/-- a dispatched connection is no longer waiting on any listener -/
+theorem dispatched_left_backlog (cfg : Cfg) (ok : CfgOk cfg) (kinds : List Kind) (ops : List Op)
+    (hnf : (run cfg (init cfg kinds) ops).fault = none) (i : Nat)
+    (hd : 0 < ids ((run cfg (init cfg kinds) ops).dispatched.map (·.1)) i) :
+    sumTo (run cfg (init cfg kinds) ops).nLst (fun l => ids ((run cfg (init cfg kinds) ops).lst l).backlog i) = 0 := by
+  rcases (run_cinv ok ops _ (init_cinv cfg kinds)).2 with h | h
+  · rw [hnf] at h; cases h
+  · have h1 := h.one i
+    have h2 := h.disp i
+    simp only [Places.B, Places.W, places, ids_nil] at h1 h2 ⊢
+    grind
+
+/-- **Listener token.**  Whatever waits on listener `l` carries token `l` … -/
+theorem backlog_carries_listener_token (cfg : Cfg) (ok : CfgOk cfg) (kinds : List Kind) (ops : List Op)
+    (hnf : (run cfg (init cfg kinds) ops).fault = none) (l : Nat) (c : Conn)
+    (hc : c ∈ ((run cfg (init cfg kinds) ops).lst l).backlog) : c.2 = l := by
+  rcases (run_cinv ok ops _ (init_cinv cfg kinds)).2 with h | h
+  · rw [hnf] at h; cases h
+  · exact h.tag l c hc
+
+/-- … so the connection `accept()` returns on listener `l` is tagged `l`; `accept_one` passes the
+pair on unchanged (`accept_one_places_exactly_once`), the worker hands it to `services[token]` (C07). -/
+theorem accepted_carries_listener_token (cfg : Cfg) (ok : CfgOk cfg) (kinds : List Kind) (ops : List Op)
+    (hnf : (run cfg (init cfg kinds) ops).fault = none) (l : Nat) (c : Conn)
+    (ha : (acceptSys (run cfg (init cfg kinds) ops) l).2 = .conn c) : c.2 = l :=
+  (acceptSys_cj _ l (run_cinv ok ops _ (init_cinv cfg kinds)).2).2 c ha hnf
+
 /-! ### Non-vacuity -/
 def demoCfg : Cfg := { limit := 2, nIdx := 2 }
 -- worker 0 dies inside window W1 of the first dispatch; the next connection is re-routed to worker 1
@@ -69,5 +131,11 @@ def demoOps : List Op :=
 example : ((run demoCfg (init demoCfg [.tcp]) demoOps).dispatched.map (·.2)) = [0, 1, 1] ∧
     (run demoCfg (init demoCfg [.tcp]) demoOps).fault = none ∧
     (run demoCfg (init demoCfg [.tcp]) demoOps).faultedLog = [0] := by decide
+-- the hypotheses of the global theorems hold for it; connection 0 died with worker 0 in its channel
+example : CfgOk demoCfg ∧ (run demoCfg (init demoCfg [.tcp]) demoOps).fault = none ∧
+    (run demoCfg (init demoCfg [.tcp]) demoOps).nextConn = 3 ∧
+    (run demoCfg (init demoCfg [.tcp]) demoOps).dropped = [(0, 0)] ∧
+    ((run demoCfg (init demoCfg [.tcp]) demoOps).wk 1).queue = [(1, 0), (2, 0)] :=
+  ⟨⟨by decide, by decide, by decide⟩, by decide, by decide, by decide, by decide⟩
 
 end ActixNet.C01
